@@ -65,6 +65,7 @@ fn main() {
         "C13" => props::c13::run(&ctx),
         "C16" => props::c16::run(&ctx),
         "C18" => props::c18::run(&ctx),
+        "C20" => props::c20::run_check(&ctx),
         _ => {
             eprintln!("MACHINERY: unknown property {}", prop);
             2
